@@ -131,12 +131,15 @@ def api_answer(op, env):
     from beartype.roar import BeartypeException
     kind = op[0]
     try:
+        # an optional fourth element: an explicit exception_prefix (the same string may be given to both functions)
+        kw = {'exception_prefix': op[3]} if len(op) > 3 else {}
         if kind == 'is_bearable':
-            return bool(is_bearable(U.to_python(op[2]), hint_of(op[1], env)))
+            r = is_bearable(U.to_python(op[2]), hint_of(op[1], env), **kw)
+            return r if isinstance(r, bool) else 'not a bool: ' + repr(r)
         if kind == 'die':
             try:
-                die_if_unbearable(U.to_python(op[2]), hint_of(op[1], env))
-                return True
+                r = die_if_unbearable(U.to_python(op[2]), hint_of(op[1], env), **kw)
+                return True if r is None else 'returned: ' + repr(r)
             except BeartypeException as e:
                 return 'exc:' + type(e).__name__
         if kind == 'is_subhint':
